@@ -20,18 +20,54 @@ func pt(name string, p unsafe.Pointer) {
 	}
 }
 
-func AddInt32(p *int32, d int32) int32     { pt("atomic.Add", unsafe.Pointer(p)); *p += d; return *p }
-func AddInt64(p *int64, d int64) int64     { pt("atomic.Add", unsafe.Pointer(p)); *p += d; return *p }
-func AddUint32(p *uint32, d uint32) uint32 { pt("atomic.Add", unsafe.Pointer(p)); *p += d; return *p }
-func AddUint64(p *uint64, d uint64) uint64 { pt("atomic.Add", unsafe.Pointer(p)); *p += d; return *p }
-func LoadInt32(p *int32) int32             { pt("atomic.Load", unsafe.Pointer(p)); return *p }
-func LoadInt64(p *int64) int64             { pt("atomic.Load", unsafe.Pointer(p)); return *p }
-func LoadUint32(p *uint32) uint32          { pt("atomic.Load", unsafe.Pointer(p)); return *p }
-func LoadUint64(p *uint64) uint64          { pt("atomic.Load", unsafe.Pointer(p)); return *p }
-func StoreInt32(p *int32, v int32)         { pt("atomic.Store", unsafe.Pointer(p)); *p = v }
-func StoreInt64(p *int64, v int64)         { pt("atomic.Store", unsafe.Pointer(p)); *p = v }
-func StoreUint32(p *uint32, v uint32)      { pt("atomic.Store", unsafe.Pointer(p)); *p = v }
-func StoreUint64(p *uint64, v uint64)      { pt("atomic.Store", unsafe.Pointer(p)); *p = v }
+func AddInt32(p *int32, d int32) int32 {
+	pt("atomic.Add", unsafe.Pointer(p))
+	*p += d
+	vsched.Obs(uint64(*p))
+	return *p
+}
+func AddInt64(p *int64, d int64) int64 {
+	pt("atomic.Add", unsafe.Pointer(p))
+	*p += d
+	vsched.Obs(uint64(*p))
+	return *p
+}
+func AddUint32(p *uint32, d uint32) uint32 {
+	pt("atomic.Add", unsafe.Pointer(p))
+	*p += d
+	vsched.Obs(uint64(*p))
+	return *p
+}
+func AddUint64(p *uint64, d uint64) uint64 {
+	pt("atomic.Add", unsafe.Pointer(p))
+	*p += d
+	vsched.Obs(uint64(*p))
+	return *p
+}
+func LoadInt32(p *int32) int32 {
+	pt("atomic.Load", unsafe.Pointer(p))
+	vsched.Obs(uint64(*p))
+	return *p
+}
+func LoadInt64(p *int64) int64 {
+	pt("atomic.Load", unsafe.Pointer(p))
+	vsched.Obs(uint64(*p))
+	return *p
+}
+func LoadUint32(p *uint32) uint32 {
+	pt("atomic.Load", unsafe.Pointer(p))
+	vsched.Obs(uint64(*p))
+	return *p
+}
+func LoadUint64(p *uint64) uint64 {
+	pt("atomic.Load", unsafe.Pointer(p))
+	vsched.Obs(uint64(*p))
+	return *p
+}
+func StoreInt32(p *int32, v int32)    { pt("atomic.Store", unsafe.Pointer(p)); *p = v }
+func StoreInt64(p *int64, v int64)    { pt("atomic.Store", unsafe.Pointer(p)); *p = v }
+func StoreUint32(p *uint32, v uint32) { pt("atomic.Store", unsafe.Pointer(p)); *p = v }
+func StoreUint64(p *uint64, v uint64) { pt("atomic.Store", unsafe.Pointer(p)); *p = v }
 func SwapInt32(p *int32, v int32) int32 {
 	pt("atomic.Swap", unsafe.Pointer(p))
 	o := *p
@@ -61,32 +97,40 @@ func CompareAndSwapInt32(p *int32, o, n int32) bool {
 	pt("atomic.CAS", unsafe.Pointer(p))
 	if *p == o {
 		*p = n
+		vsched.Obs(1)
 		return true
 	}
+	vsched.Obs(0)
 	return false
 }
 func CompareAndSwapInt64(p *int64, o, n int64) bool {
 	pt("atomic.CAS", unsafe.Pointer(p))
 	if *p == o {
 		*p = n
+		vsched.Obs(1)
 		return true
 	}
+	vsched.Obs(0)
 	return false
 }
 func CompareAndSwapUint32(p *uint32, o, n uint32) bool {
 	pt("atomic.CAS", unsafe.Pointer(p))
 	if *p == o {
 		*p = n
+		vsched.Obs(1)
 		return true
 	}
+	vsched.Obs(0)
 	return false
 }
 func CompareAndSwapUint64(p *uint64, o, n uint64) bool {
 	pt("atomic.CAS", unsafe.Pointer(p))
 	if *p == o {
 		*p = n
+		vsched.Obs(1)
 		return true
 	}
+	vsched.Obs(0)
 	return false
 }
 func LoadPointer(p *unsafe.Pointer) unsafe.Pointer     { pt("atomic.Load", unsafe.Pointer(p)); return *p }
